@@ -591,6 +591,64 @@ def static_naming(ctx):
                     'scope', ig.file, ig.line)
 
 
+def global_lookup_key(ctx):
+    """init_code registers STATIC variables in the global area under
+    Variable.full_name; every site that turns a variable operand into a
+    global slot must look it up under that same key."""
+    repo = ctx.repo
+    rule = 'C04.global-slots-looked-up-by-full-name'
+    ctx.rule(rule, 'every call of get_global_var_idx in the assembler '
+             'passes the variable\'s full_name (the key under which '
+             'init_code registered it), in every arm alike; a bare name '
+             'misses routine-qualified STATIC variables')
+    f = repo.func('qbee.qvm_codegen', 'QvmCode.assembled')
+    n = 0
+    for body in (b for x in ast.walk(f.node)
+                 for b in (getattr(x, 'body', None),
+                           getattr(x, 'orelse', None))
+                 if isinstance(b, list)):
+        for i, st in enumerate(body):
+            for c in ast.walk(st):
+                if not (isinstance(c, ast.Call) and
+                        dotted(c.func) == 'get_global_var_idx' and
+                        len(c.args) >= 2):
+                    continue
+                if any(c is y for s2 in body[i + 1:] for y in ast.walk(s2)):
+                    continue
+                # only direct statements of this block
+                if not any(c is y for y in ast.walk(st)) or \
+                        isinstance(st, (ast.If, ast.For, ast.While,
+                                        ast.Try, ast.With)):
+                    continue
+                n += 1
+                a = c.args[1]
+                ok = any(isinstance(y, ast.Attribute) and
+                         y.attr == 'full_name' for y in ast.walk(a))
+                if not ok and isinstance(a, ast.Name):
+                    for prev in reversed(body[:i]):
+                        if isinstance(prev, ast.Assign) and any(
+                                isinstance(t, ast.Name) and t.id == a.id
+                                for t in prev.targets):
+                            ok = any(isinstance(y, ast.Attribute) and
+                                     y.attr == 'full_name'
+                                     for y in ast.walk(prev.value))
+                            break
+                arm = unparse(getattr(st, '_parent', st).test)[:50] \
+                    if isinstance(getattr(st, '_parent', None), ast.If) \
+                    else f'line-{n}'
+                construct = f'{f.file}:QvmCode.assembled:{arm}'
+                ctx.instance(rule, construct, sample={'by_full_name': ok})
+                if not ok:
+                    ctx.finding(rule, construct,
+                                f'the arm `{arm}` looks the global slot up '
+                                f'under the operand as written, not under '
+                                f'Variable.full_name: a STATIC variable '
+                                f'(registered as _static_<routine>_<name>) '
+                                f'is not found -> KeyError in bytes(code)',
+                                f.file, c.lineno)
+    ctx.floor('get_global_var_idx call sites in the assembler', n, 4)
+
+
 def param_cells(ctx):
     repo = ctx.repo
     rule = 'C04.one-cell-per-parameter'
@@ -646,6 +704,7 @@ def run(ctx):
     frame_layout(ctx)
     deferred_frame_size(ctx)
     static_naming(ctx)
+    global_lookup_key(ctx)
     param_cells(ctx)
     from .. import strides
     strides.check_cpu_side(ctx, 'C04',
